@@ -908,8 +908,11 @@ def main(run):
         two = [p_.name for p_ in linfo.parameters.call_parameters if p_.type == "volume" and p_.polydisperse][:2]
         for n1, n2 in (meshes if thorough else meshes[:2]):
             lp = base_pars(linfo, rng)
-            lp.update({two[0] + "_pd": 0.2, two[0] + "_pd_n": n1, two[0] + "_pd_type": "rectangle", two[1] + "_pd": 0.15, two[1] + "_pd_n": n2, two[1] + "_pd_type": "rectangle"})
+            lp.update({two[0] + "_pd": 0.2, two[0] + "_pd_n": n1, two[0] + "_pd_type": "gaussian", two[1] + "_pd": 0.15, two[1] + "_pd_n": n2, two[1] + "_pd_type": "uniform"})
             lp.update(scale=rng.uniform(0.3, 2), background=rng.uniform(0, 0.1))
+            lens_ = [len(m_[1]) for m_ in mesh_of(linfo, lp, "1d")]
+            if int(np.prod(lens_)) != n1 * n2:
+                run.notes.append("long-q case %s: the mesh has %d points, not %d x %d" % (lname, int(np.prod(lens_)), n1, n2))
             kl, ks = lmodel.make_kernel([q_long]), lmodel.make_kernel([q_long[pick]])
             try:
                 from sasmodels.direct_model import call_kernel as _ck
